@@ -35,7 +35,7 @@ META = {
   rule="reference-encoded messages (independent encoder, caller-chosen compression anywhere, OPT at any index) with RDLENGTH made larger/smaller than the natural size (+-1, +2, +7, to the end of the message, past it, zero), the same with surplus bytes inserted so that the envelope stays consistent and more records follow, every count +-1, truncations, plus valid library-built packets; Packet::parse compared exactly with the model; oracle: an independent RFC 1035 envelope walker in the harness, each returned question/record compared with its entry (owner, type, class, flush, ttl), and RDATA re-parsed from the message cut at the record's end; non-trivial = distinct (request, output)",
   assumptions=STD, timeout=dict(quick=600, thorough=7200)),
  "C11": dict(
-  extra_modules=["TieEnv"],
+  extra_modules=["TieEnv", "C04C07C11More"],
   rule="parser-accepted inputs among: reference-encoded messages with arbitrary compression, unknown types/classes of content, empty RDATA, OPT anywhere, RDLENGTH/count perturbations, every 37th (quick) or every (thorough) header word; chain parse -> build (plain and compressed) -> parse on the library, each stage compared with the model; oracle: the re-parsed packet equals the first; non-trivial = accepted inputs",
   assumptions=STD, timeout=dict(quick=600, thorough=7200)),
  "C17": dict(
@@ -65,11 +65,11 @@ META = {
   rule="for each of the 39 typed variants other than OPT: 60 (thorough 2000) field tuples (boundary and random values, shared-suffix names, opaque tails of 0..1200 bytes); the library's serialisation compared byte for byte with an independent reference encoder written from the RFCs (harness) and with the Lean RFC schema encoder (spec.rdata), under the IANA code; the reference encoding parsed by the library and compared field by field; plus encodings breaking a structural rule (LOC version, SVCB key order, NSEC window order, inner length overruns) which must be rejected, and the ISDN-without-sub-address encoding of RFC 1183 (known finding); plus 400 (thorough 6000) SVCB/HTTPS records built through set_param and the typed helpers (mandatory, alpn, no-default-alpn, port, ipv4hint, ipv6hint) in random order with repeats and values at the 65535/65536 boundary, replayed by the model (svcb) and checked against an ordered map of RFC 9460 section 7 values kept by the harness",
   assumptions=STD, timeout=dict(quick=600, thorough=7200)),
  "C04": dict(
-  extra_modules=["TieEnv"],
+  extra_modules=["TieEnv", "C04C07C11More"],
   rule="packets as C02 (700 quick / 6000 thorough): both vector-returning entry points walked by an independent RFC 1035 walker (counts = entries written incl. OPT once, no trailing bytes); then every writer configuration: Vec (empty / pre-filled), Cursor<Vec> at offsets 0/2/3/7 over empty, shorter and longer pre-filled storage, Cursor<&mut [u8]> and &mut [u8] of capacities {0,1,11,12,len-1,len,len+1,len+2,len/2} (every capacity 0..len+2 for every 16th packet) and at offsets 2/3/5, plain and compressed; result class, final storage and final position compared with the model and with the bytes of build_bytes_vec* spliced in; distinct = distinct (request, output)",
   assumptions=STD, timeout=dict(quick=900, thorough=7200)),
  "C07": dict(
-  extra_modules=["Tie"],
+  extra_modules=["Tie", "C04C07C11More"],
   rule="packets as C03 incl. messages crossing 16 KiB and the sweep of a multi-label name across offset 16383/16384: build_bytes_vec_compressed compared byte for byte with the model; every name site located by an independent schema-aware walker in the harness; each pointer checked: strictly backward, target <= 16383, not into the header, expansion = the intended name (from the uncompressed output), none inside no-compress RDATA (SRV NAPTR KX RRSIG NSEC IPSECKEY SVCB HTTPS), repeated compressible names written as exactly two bytes; plus write_compressed_to at stream offsets 2 and 13 must emit the same message",
   assumptions=STD, timeout=dict(quick=600, thorough=7200)),
  "C12": dict(
